@@ -10,7 +10,7 @@ CHECKS = {
  "C01": ("online reference-model monitor (best-of-21 five-card ranker) over exhaustive/seeded executions of MadeHand::from, table-slot hook for coverage",
          "Every observed execution of the real evaluator is compared with an independent naive ranker: quick covers every flush-table execution (all 4,089,228 sets with >=5 cards of a suit), every one of the 49,205 no-flush slots, 8M random sets and 10,000 sets in all 5040 orders; thorough covers all 133,784,560 sets (exhaustive over sets) plus 400,000 sets in all orders, and checks Ord/PartialOrd/Eq of consecutive hands against poker order; a dev-profile pass (overflow checks, debug assertions) re-evaluates every rank multiset and flush mask in child processes, and a concurrent pool stress has 16 threads re-evaluate pools of 2..65536 hands against the oracle (a shared cache inside the evaluator must survive concurrent use). Held means: no disagreement on any observed execution.",
          TRUST + " The 7! presentation orders per set are sampled (seed-hashed order per set), exhausted only for the listed sets.", "DESIGN.md §4 C01"),
- "C02": ("online boundary monitor + naive-enumerator oracle (multiset fingerprints per board position) over complete drains of the real evaluator; deal hook for coverage and a logical non-termination bound",
+ "C02": ("online boundary monitor + naive-enumerator oracle (multiset fingerprints per board position) over complete drains of the real evaluator; deal hook for coverage and for the non-termination guard (considered-deals budget + cycle detection on the odometer state)",
          "Each case drains the real FlopExhaustiveEvaluator completely; every showdown is checked locally (flop order, unseen turn/river, combo from the player's own range, 5+2n distinct cards, probability = one of the exactly computable f32 products of the weights for up to four players) and the multiset of yielded deals must equal the naive enumeration position by position; for products of range sizes at and beyond 2^32 the first 60,000 showdowns must be legal, pairwise different and not end early; every case of up to 12,000 showdowns is also walked through nth/skip/step_by/take/last/count and compared with the next() loop; zero players and notation spelling combos low card first are covered, and no parsed range may hold one combo under two keys. Cases: 1-8 players, range sizes 1..1326 (255/256/257 boundaries), identical/overlapping/flop-blocked ranges, parsed and collected ranges, seeded random configurations.",
          TRUST + " Range lists are sampled, not enumerated; f32 probability compared with relative tolerance 1e-5.", "DESIGN.md §4 C02"),
  "C04": ("online comparison of scoped runs with the unscoped run (position order, per-position multiset fingerprints, exhaustion) over seeded/exhaustive scope pairs and chains; dev-profile child pass",
@@ -19,8 +19,8 @@ CHECKS = {
  "C07": ("online reference-model monitor (category of the best five cards) over the C01 sweep",
          "The partition of hands induced by hand_type() (its Debug name; a renamed variant is accepted as long as the nine categories stay apart) is compared with the oracle's category on every observed evaluation: quick reaches every one of the 4,824 reachable power indexes (all flush-table executions, all rank multisets), thorough all 133,784,560 sets; the strongest and weakest class seen per category are reported.",
          TRUST, "DESIGN.md §4 C07"),
- "C08": ("crash-isolated child processes on 2 MiB threads in dev and release profiles, wait-status classifier + hook-based deal bound, blocked-run, depth and stack probes",
-         "Each (case, profile) drains the real evaluator in its own process on a 2 MiB thread; panic, integer overflow (dev profile), out-of-bounds, stack overflow/abort and logical non-termination (more than 1176*prod(len)+16 considered deals) are violations, a watchdog firing is inconclusive. Cases: combos on the flop beside 1..1326 combos (longest blocked runs), AsKs vs all combos, sizes 0/1/255/256/257/300/1326 in every player position, empty ranges, ranges whose every weight is 0, 6-10 and 16/17/20/23 players, random lists; small cases are also drained through size_hint()/collect()/count() and with the scope given explicitly.",
+ "C08": ("crash-isolated child processes on 2 MiB threads in dev and release profiles, wait-status classifier + hook-based non-termination guard (deal budget, cycle detection), blocked-run, depth and stack probes",
+         "Each (case, profile) drains the real evaluator in its own process on a 2 MiB thread; panic, integer overflow (dev profile), out-of-bounds, stack overflow/abort and logical non-termination (more than 1176*prod(len)+16 considered deals, or an odometer state considered twice) are violations, a watchdog firing is inconclusive. Cases: combos on the flop beside 1..1326 combos (longest blocked runs), AsKs vs all combos, sizes 0/1/255/256/257/300/1326 in every player position, empty ranges, ranges whose every weight is 0, 6-10 and 16/17/20/23 players, random lists; small cases are also drained through size_hint()/collect()/count() and with the scope given explicitly.",
          TRUST + " OS/default-stack semantics of std::thread; range lists sampled.", "DESIGN.md §4 C08"),
  "C03": ("online reference-model monitor (five-card oracle per player) over direct Showdown::new calls",
          "Every observed Showdown::new call is checked for player order, per-player evaluation of its own seven cards, winner flags = exactly the holders of the strongest class, winner_len = flagged count >= 1, echoed cards/board/probability, and None exactly when a hole card lies on the board. Workload: 400k random showdowns with 1..23 players biased to share ranks, all ordered heads-up pairs of the 1081 live combos on tie-making boards (royal/straight flush/quads/broadway/wheel/full house on board), collision cases for every board slot and seat, sequences of consecutive calls on one thread that share players/turn/river over different flops or follow a refused call, and a dev-profile pass with up to 23 players.",
